@@ -181,6 +181,191 @@ def zone_deescape(ctx, rid, dp):
     return n
 
 
+def zone_gapfree(ctx, rid, dp):
+    """When the write cursor lags behind the text being scanned, every byte it moves over is written first.
+    For each advance of the write cursor (`out += E`, `out = out + E`, `++out`): on every way into the advance - replayed
+    path by path through the blocks that do not move the read cursor, starting from the zone fixpoint - either the cursor is
+    known not to lag (`out >= start`, the kept text is in place already), or the advance is by nothing (E <= 0), or a fill /
+    move of exactly E bytes at the old position (memset / memmove / memcpy(out, .., E)) was passed since the last advance,
+    or the advance is the `*out++ = c` idiom (the byte is stored through the old position)."""
+    wr_ptrs = set()
+    for e in dp.events('asg'):
+        l = strip(e['l'])
+        if isinstance(l, dict) and l.get('k') == 'un' and l.get('op') == '*':
+            for x in walk(l['e']):
+                if x.get('k') == 'var' and x.get('tk') == 'ptr':
+                    wr_ptrs.add(x['n'])
+    for e in dp.events('call'):
+        if (e.get('name') or '') in ('memset', 'memmove', 'memcpy') and e.get('args'):
+            d0 = strip(e['args'][0])
+            if isinstance(d0, dict) and d0.get('k') == 'var' and d0.get('tk') == 'ptr':
+                wr_ptrs.add(d0['n'])
+    # copies of a write cursor (parameters of inlined helpers) are write cursors
+    changed = True
+    while changed:
+        changed = False
+        for e in dp.events('decl'):
+            i = strip(e.get('init')) if e.get('init') is not None else None
+            if isinstance(i, dict) and i.get('k') == 'var' and i['n'] in wr_ptrs and e['n'] not in wr_ptrs:
+                wr_ptrs.add(e['n'])
+                changed = True
+    cur = None
+    for e in dp.events('decl'):
+        if e['n'] in wr_ptrs and e.get('init') is not None:
+            i = strip(e['init'])
+            if isinstance(i, dict) and i.get('k') == 'var' and i['n'] not in wr_ptrs:
+                cur = i['n']
+    span = [e['n'] for e in dp.events('decl') if e.get('init') is not None and isinstance(strip(e['init']), dict) and
+            strip(e['init']).get('k') == 'var' and strip(e['init'])['n'] == cur and e['n'] not in wr_ptrs and 'char' in (e.get('ty') or '')]
+    if cur is None or not span:
+        raise AnalysisBroken('DepfileParser::Parse: read cursor / span start not found (%s, %s)' % (cur, span))
+    start = span[0]
+    an = Analysis(dp, extra_vars=['__t', '__u'])
+    z0 = Zone(an.names)
+    an.run(z0)
+    preds = {}
+    for b, blk in dp.blocks.items():
+        for i, s2 in enumerate(blk['succ']):
+            if s2 is not None:
+                preds.setdefault(s2, []).append((b, i))
+
+    def moves_cursor(b):
+        return any((e['k'] == 'asg' and isinstance(strip(e['l']), dict) and strip(e['l']).get('k') == 'var' and strip(e['l'])['n'] == cur) or
+                   (e['k'] == 'decl' and e['n'] == cur) for e in dp.blocks[b]['ev'])
+
+    def advance_of(e):
+        """(write cursor, amount descriptor or int) if e advances a write cursor, or computes an advanced cursor position
+        (`r = out + E`, e.g. the result of an inlined helper)."""
+        if e['k'] == 'decl' and e.get('init') is not None:
+            r = strip(e['init'])
+            if isinstance(r, dict) and r.get('k') == 'bin' and r['op'] == '+' and isinstance(strip(r['l']), dict) and \
+                    strip(r['l']).get('k') == 'var' and strip(r['l'])['n'] in wr_ptrs:
+                return strip(r['l'])['n'], r['r']
+            return None
+        if e['k'] != 'asg':
+            return None
+        l = strip(e['l'])
+        if e['op'] == '=' and isinstance(l, dict) and l.get('k') == 'var':
+            r = strip(e.get('r'))
+            if isinstance(r, dict) and r.get('k') == 'bin' and r['op'] == '+' and isinstance(strip(r['l']), dict) and \
+                    strip(r['l']).get('k') == 'var' and strip(r['l'])['n'] in wr_ptrs:
+                return strip(r['l'])['n'], r['r']
+        if not (isinstance(l, dict) and l.get('k') == 'var' and l['n'] in wr_ptrs):
+            return None
+        if e['op'] == '++':
+            return l['n'], 1
+        if e['op'] == '+=':
+            return l['n'], e.get('r')
+        if e['op'] == '=':
+            r = strip(e.get('r'))
+            if isinstance(r, dict) and r.get('k') == 'bin' and r['op'] == '+' and isinstance(strip(r['l']), dict) and \
+                    strip(r['l']).get('k') == 'var' and strip(r['l'])['n'] in wr_ptrs:
+                return l['n'], r['r']
+            if isinstance(r, dict) and r.get('k') == 'var' and (r['n'] in wr_ptrs or r['n'].startswith('ret@')):
+                return None         # a copy of a cursor (inlined helper result): the advance was checked where it was computed
+        return None
+
+    n_adv, n_paths = 0, 0
+    for bid in sorted(dp.blocks, reverse=True):
+        if bid not in an.inn or an.inn[bid].bot:
+            continue
+        evs = dp.blocks[bid]['ev']
+        for idx, e in enumerate(evs):
+            adv = advance_of(e)
+            if adv is None:
+                continue
+            wv, amount = adv
+            # `*out++ = c`: the store through the old position follows in the same block
+            if amount == 1 and any(x['k'] == 'asg' and isinstance(strip(x['l']), dict) and strip(x['l']).get('k') == 'un' and
+                                   'post++' in dstr(strip(x['l'])['e']) and wv in dstr(strip(x['l'])['e']) for x in evs[idx + 1:idx + 4]):
+                n_adv += 1
+                ctx.inst(rid, dp.where(e), 'advance `%s`: the byte is stored through the old position (`*%s++ = c`)' % ((e.get('src') or '')[:30], wv))
+                continue
+            n_adv += 1
+            # backward paths through blocks that leave the read cursor alone
+            paths, work = [], [[bid]]
+            while work:
+                pth = work.pop()
+                b0 = pth[0]
+                ps = [pb for pb, pi in preds.get(b0, []) if pb in an.inn and not an.inn[pb].bot]
+                if not ps:
+                    paths.append(pth)
+                for pb in ps:
+                    if pb in pth or len(pth) >= 12:
+                        paths.append(pth)       # a loop or a long way: replay from the fixpoint state of b0 (no refinement lost that matters)
+                    elif moves_cursor(pb):
+                        paths.append([pb] + pth)    # the last block of the scanner: replay it too (its branch decides the way in), go no further
+                    else:
+                        work.append([pb] + pth)
+                if len(paths) + len(work) > 400:
+                    raise AnalysisBroken('gap-free check: too many ways into the advance at %s' % dp.where(e))
+            bad = None
+            for pth in paths:
+                n_paths += 1
+                zs = an.inn[pth[0]].copy()
+                filled = None        # descriptor / form of the last fill at the cursor on this path
+                ok_path = False
+                feasible = True
+                for k, b in enumerate(pth):
+                    last = (k == len(pth) - 1)
+                    for j, x in enumerate(dp.blocks[b]['ev']):
+                        if last and j == idx:
+                            break
+                        a2 = advance_of(x)
+                        if a2 is not None and a2[0] == wv:
+                            filled = None
+                        if x['k'] == 'call' and (x.get('name') or '') in ('memset', 'memmove', 'memcpy') and len(x.get('args') or []) == 3:
+                            d0 = strip(x['args'][0])
+                            if isinstance(d0, dict) and d0.get('k') == 'var' and d0['n'] == wv:
+                                filled = x['args'][2]
+                        an.transfer_event(zs, x)
+                    if zs.bot:
+                        feasible = False
+                        break
+                    if not last:
+                        nb = pth[k + 1]
+                        blk = dp.blocks[b]
+                        t = blk.get('term')
+                        took = [i for i, s2 in enumerate(blk['succ']) if s2 == nb]
+                        if t and 'cond' in t and len(blk['succ']) == 2 and len(took) == 1:
+                            zs = an.refine(zs, dp.eff_cond(b), took[0] == 0)
+                            if zs.bot:
+                                feasible = False
+                                break
+                if not feasible:
+                    continue
+                # (a) not lagging
+                if zs.entails(({start: 1, wv: -1}, 0), 0):
+                    continue
+                # (b) advance by nothing
+                amt = ({}, amount) if isinstance(amount, int) else an.lin_or_temp(amount, zs, '__t')
+                if amt is not None and zs.entails(amt, 0):
+                    continue
+                # (c) a fill of exactly that many bytes at the old position
+                if filled is not None:
+                    if not isinstance(amount, int) and dstr(strip(filled)) == dstr(strip(amount)):
+                        continue
+                    fl = an.lin_or_temp(filled, zs, '__u')
+                    if amt is not None and fl is not None:
+                        diff = ({v: c for v, c in {**{a_: c_ for a_, c_ in amt[0].items()}, **{}}.items()}, amt[1])
+                        t2 = dict(amt[0])
+                        for v, c in fl[0].items():
+                            t2[v] = t2.get(v, 0) - c
+                        f1 = ({v: c for v, c in t2.items() if c}, amt[1] - fl[1])
+                        if zs.entails(f1, 0):          # the advance is not larger than what was filled
+                            continue
+                bad = (pth, zs.describe({wv, start, cur, ZERO} | {v for v in an.names if v.startswith(('len', 'n', 'count'))})[:260])
+                break
+            ctx.check(rid, bad is None, dp.name, 'deescape:gap:%s' % (e.get('src') or '')[:30], dp.where(e),
+                      'the write cursor advances over bytes only if it does not lag, or they were filled / moved first (`%s`)' % (e.get('src') or '')[:40],
+                      msg=None if bad is None else 'on a way into `%s` the write cursor may lag behind `%s` and moves over bytes that were not written '
+                      '(blocks %s; state: %s)' % ((e.get('src') or '')[:40], start, bad[0][-6:], bad[1]),
+                      witness=None if bad is None else {'blocks': bad[0]})
+    ctx.table(rid + ' gap-free fill', {'write cursors': sorted(wr_ptrs), 'read cursor': cur, 'span start': start,
+                                       'advances examined': n_adv, 'ways replayed': n_paths})
+    return n_adv
+
+
 def run(ctx):
     prog = ctx.prog
     R = ctx.rule
@@ -415,6 +600,10 @@ def run(ctx):
       'read cursor (the text not yet scanned is never overwritten), with non-negative lengths')
     zone_deescape(ctx, 'C15.Z1', dp)
     ctx.floor('C15.Z1', 8)
+    R('C15.Z2', 'AI', 'gap-free de-escaping: where the write cursor lags behind the scanned text, every byte it moves over was written first '
+      '(path-by-path replay of the zone analysis through each de-escaping action)')
+    zone_gapfree(ctx, 'C15.Z2', dp)
+    ctx.floor('C15.Z2', 6)
     ctx.note('NOT decided: that every escaped spelling (runs of backslashes before space, #, :, $$, continuations, CRLF) is read back '
              'as the name that was written - that is the behaviour of the generated scanner on strings, not a shape of the code. '
              'Its memory safety at the sentinel is decided under C13 (VS1).')
